@@ -46,6 +46,9 @@ def resolvedFastMask (M L padRows padCols N deg : Nat) : List (List Bool) :=
  (rows `2m` and `2m+1` share `p[m]`). -/
 def fastBasis {K : Type} (b : Basis K) : Basis K := ⟨b.f, dup b.p, b.w⟩
 
+/-- `RealSphericalHarmonics.basis.p`: `np.repeat(p, 2, axis=0)[1:]` -/
+def realTables {K : Type} (p : List (List (List K))) : List (List (List K)) := (dup p).drop 1
+
 /-! ### the certificate record -/
 
 structure ICert where
@@ -133,9 +136,9 @@ def colIntOk (c : ICert) (mask : List (List Bool)) (k : Nat) : Bool :=
 def b0sqLo : Nat := 87496354673
 def b0sqHi : Nat := 87496355774
 
-/-- `lo/2^40 ≤ b₀² ≤ hi/2^40` -/
+/-- `b₀ > 0` and `lo/2^40 ≤ b₀² ≤ hi/2^40` -/
 def b0sqOk (c : ICert) : Bool :=
-  decide (b0sqLo * 2 ^ (2 * (c.ef + c.ep)) ≤ (c.b0 * c.b0).toNat * 2 ^ 40) &&
+  decide (0 < c.b0) && decide (b0sqLo * 2 ^ (2 * (c.ef + c.ep)) ≤ (c.b0 * c.b0).toNat * 2 ^ 40) &&
   decide ((c.b0 * c.b0).toNat * 2 ^ 40 ≤ b0sqHi * 2 ^ (2 * (c.ef + c.ep)))
 
 /-- the `(0,0)` basis function is constant on the genuine nodes: `f[i][0] = f[0][0]` for `i < N₀`,
